@@ -267,6 +267,10 @@ type c06Case struct {
 	Text string
 	Want []bool // per measurement index mod 5
 	List string // optional fixed-list projection parsed with the filter
+	// Rejected: a projection text that Parse must reject, offered with the same Filter BEFORE List (if any);
+	// a rejected projection leaves the filter as it was
+	Rejected string `json:",omitempty"`
+	In       bool   `json:",omitempty"` // whether the standard result's values are in every list of List
 }
 
 func c06Replay(raw json.RawMessage) string {
@@ -280,8 +284,8 @@ func c06Replay(raw json.RawMessage) string {
 	}
 	var msg string
 	p := mc.Catch(func() {
-		if cs.List != "" {
-			msg = c06CheckList(cs.Text, cs.List, func(i int) bool { return cs.Want[i%5] }, results)
+		if cs.List != "" || cs.Rejected != "" {
+			msg = c06CheckProj(cs.Text, cs.Rejected, cs.List, cs.In, func(i int) bool { return cs.Want[i%5] }, results)
 		} else {
 			msg = c06CheckText(cs.Text, func(i int) bool { return cs.Want[i%5] }, results)
 		}
@@ -351,22 +355,31 @@ func c06Trees(c *mc.Check, maxNodes int) {
 
 // c06CheckList parses a fixed-list projection together with the user filter:
 // a result is then kept iff its value is in the list and the filter matches.
-func c06CheckList(text, proj string, want func(i int) bool, results []*benchfmt.Result) string {
+// c06CheckProj compiles the filter, offers it a projection that must be rejected (optional) and then one with
+// fixed value lists (optional): afterwards measurement i is kept iff the result is in every list of the accepted
+// projection and the filter expression holds.
+func c06CheckProj(text, rejected, proj string, in bool, want func(i int) bool, results []*benchfmt.Result) string {
 	f, err := NewFilter(text)
 	if err != nil {
 		return fmt.Sprintf("valid filter %q rejected: %v", text, err)
 	}
 	var pp ProjectionParser
-	if _, err := pp.Parse(proj, f); err != nil {
-		return fmt.Sprintf("projection %q rejected: %v", proj, err)
+	if rejected != "" {
+		if _, err := pp.Parse(rejected, f); err == nil {
+			return fmt.Sprintf("projection %q is accepted", rejected)
+		}
 	}
-	inList := strings.Contains(proj, " 1 ") || strings.Contains(proj, "(1 ") || strings.Contains(proj, " 1)") || strings.Contains(proj, "(1)")
+	if proj != "" {
+		if _, err := pp.Parse(proj, f); err != nil {
+			return fmt.Sprintf("projection %q rejected: %v", proj, err)
+		}
+	}
 	for _, res := range results {
 		m, _ := f.Match(res)
 		for i := range res.Values {
-			w := inList && want(i)
+			w := (proj == "" || in) && want(i)
 			if m.Test(i) != w {
-				return fmt.Sprintf("filter %q with projection %q on %d measurements: Test(%d)=%v want %v", text, proj, len(res.Values), i, m.Test(i), w)
+				return fmt.Sprintf("filter %q after the rejected projection %q and with projection %q on %d measurements: Test(%d)=%v want %v", text, rejected, proj, len(res.Values), i, m.Test(i), w)
 			}
 		}
 	}
@@ -375,7 +388,8 @@ func c06CheckList(text, proj string, want func(i int) bool, results []*benchfmt.
 
 func c06Lists(c *mc.Check, maxNodes int) {
 	projs := []string{`/k@(1)`, `/k@(7 1)`, `/k@(7)`, `/k@(7 8 "")`, `.name,/k@(2 1 3)`, `/k@(1),/gomaxprocs@(4)`, `/k@(1),/gomaxprocs@(3)`}
-	f := c.Family("fixed-list-projections", fmt.Sprintf("every filter AST with ≤%d nodes × %d projections with fixed value lists parsed onto the filter: a measurement is kept iff the result's value is in every list and the filter matches it; non-trivial = list excludes the result or filter is not constant", maxNodes, len(projs)), c06Replay)
+	rejects := []string{`/k@(7),b@bogus`, `/k@(7),.unit`, `.name@(Y),.config@(a)`, `/k@(7 8),""`, `/gomaxprocs@(3),/k@(`}
+	f := c.Family("fixed-list-projections", fmt.Sprintf("every filter AST with ≤%d nodes × %d projections with fixed value lists parsed onto the filter, alone and after each of %d projection texts that must be REJECTED although they begin with a valid fixed-list field: a measurement is kept iff the result's value is in every list of the ACCEPTED projection and the filter matches it (a failed Parse leaves the Filter unchanged); non-trivial = list excludes the result or filter is not constant", maxNodes, len(projs), len(rejects)), c06Replay)
 	if c.Replaying() {
 		return
 	}
@@ -396,43 +410,45 @@ func c06Lists(c *mc.Check, maxNodes int) {
 			text := t.text(0)
 			for pi, proj := range projs {
 				in := pi != 2 && pi != 3 && pi != 6
-				want := func(i int) bool { return in && t.eval(i) }
-				var msg string
-				p := mc.Catch(func() {
-					flt, err := NewFilter(text)
-					if err != nil {
-						msg = err.Error()
-						return
-					}
-					var pp ProjectionParser
-					if _, err := pp.Parse(proj, flt); err != nil {
-						msg = err.Error()
-						return
-					}
-					for _, res := range results {
-						m, _ := flt.Match(res)
-						for j := range res.Values {
-							if m.Test(j) != want(j) {
-								msg = fmt.Sprintf("filter %q with projection %q on %d measurements: Test(%d)=%v want %v", text, proj, len(res.Values), j, m.Test(j), want(j))
-								return
-							}
+				// every accepted projection alone, and after each projection text that must be rejected although
+				// it starts with a valid fixed-list field (the filter must come out of the failed Parse unchanged)
+				for ri := -1; ri < len(rejects); ri++ {
+					rej := ""
+					if ri >= 0 {
+						if pi > 1 {
+							continue
 						}
+						rej = rejects[ri]
 					}
-				})
-				if p != "" {
+					var msg string
+					if p := mc.Catch(func() { msg = c06CheckProj(text, rej, proj, in, t.eval, results) }); p != "" {
+						msg = p
+					}
+					l.Evals++
+					l.Nontrivial++
+					l.Outcome(fmt.Sprintf("in-list=%v after-rejected=%v", in, rej != ""))
+					if msg != "" {
+						c.Fail(f, "fixed-list", c06Case{Text: text, Want: wantVec(t), List: proj, Rejected: rej, In: in}, msg)
+					}
+				}
+			}
+			// a rejected projection and nothing else: the filter means what it meant
+			for _, rej := range rejects {
+				var msg string
+				if p := mc.Catch(func() { msg = c06CheckProj(text, rej, "", true, t.eval, results) }); p != "" {
 					msg = p
 				}
 				l.Evals++
 				l.Nontrivial++
-				l.Outcome(fmt.Sprintf("in-list=%v", in))
+				l.Outcome("rejected-only")
 				if msg != "" {
-					c.Fail(f, "fixed-list", map[string]string{"filter": text, "projection": proj}, msg)
+					c.Fail(f, "fixed-list", c06Case{Text: text, Want: wantVec(t), Rejected: rej}, msg)
 				}
 			}
 		}
 		l.Flush()
 	})
-	f.Sample(map[string]string{"filter": all[40].text(0), "projection": projs[1]})
+	f.Sample(c06Case{Text: all[40].text(0), Want: wantVec(all[40]), List: projs[1], In: true})
 	f.Done()
 }
 
